@@ -95,13 +95,13 @@ CHECKS.update({
         note='',
         ref='DESIGN.md §5 C17'),
     'C18': dict(
-        technique='static analysis: end-marker protocol conditions (count agreement by def-use, ordering, exactly-one put/forward per path) on producer, worker, collector and consumer',
-        text='Decides ONLY necessary conditions of the queue protocol: marker counts derive from one value, markers follow rows, each row is put and forwarded exactly once on every path, the collector signals completion only at zero, the consumer yields until the marker. The property\'s headline "for every interleaving" is NOT decided: no static argument in reach bounds schedules (that needs a model checker, a different family).',
+        technique='static analysis: channel model built from spawn sites (actors, queues by creation site, parameter bindings); end-marker protocol conditions (count agreement, ordering, exactly-one put/forward per path, marker discipline per queue kind) on producer, worker, collector and consumer',
+        text='Decides ONLY necessary conditions of the queue protocol: marker counts derive from one value, markers follow rows, each row is put and forwarded exactly once on every path, the collector signals completion only at zero, the consumer yields until the marker, queue operations block without timeouts, and every actor that puts rows on a queue is ordered before that queue\'s end marker (on a multi-process queue: puts the marker itself). The property\'s headline "for every interleaving" is NOT decided: no static argument in reach bounds schedules (that needs a model checker, a different family).',
         note='Failure paths are C04 known findings.',
         ref='DESIGN.md §5 C18'),
     'C19': dict(
-        technique='static analysis: commit-point ordering on enumerated paths (post-loop, not in except/finally, single writer of datapackage.json, copy after finalize and close)',
-        text='Decides that handle_datapackage runs once after the loop over all resource streams and outside except/finally, that datapackage.json is written by one function after json.dump and close, that each data file is copied out after finalize_file and close after its row loop from the temp file that was measured, and that streams go through process_resource. Atomicity of shutil.copy is not decided.',
+        technique='static analysis: commit-point ordering on enumerated paths (post-loop, not in except/finally, single writer of datapackage.json, copy after finalize and close); path-wise value of the copy destination',
+        text='Decides that handle_datapackage runs once after the loop over all resource streams and outside except/finally, that datapackage.json is written by one function after json.dump and close, that each data file is copied out after finalize_file and close after its row loop from the temp file that was measured, that streams go through process_resource, and that write_file_to_output places the file under its final name before returning while no other dumper method moves files. Atomicity of shutil.copy is not decided.',
         note='LF6; sequential draining by the driver (C01/C05 R3).',
         ref='DESIGN.md §5 C19'),
     'C20': dict(
